@@ -30,13 +30,13 @@ PROPS = {
     },
     "C07": {
         "suites": [("read", 4000, 60000)],
-        "oracle": (1000, 30000),
+        "oracle": (1500, 30000),
         "rule": "frames of <= 10 bytes: every composition into chunks x zero-length reads x EOF style (exhaustive); "
                 "longer frames: random schedules and bytewise delivery; non-trivial = more than one chunk",
     },
     "C08": {
         "suites": [("read", 4000, 60000)],
-        "oracle": (1000, 30000),
+        "oracle": (1500, 30000),
         "rule": "frames x every cut offset (<=40 bytes exhaustively) x fault in the same call as the last bytes / in the "
                 "next call x io.EOF / injected transport error; non-trivial = cut after the first byte",
     },
